@@ -130,6 +130,7 @@ def gen_scenarios(rng: Rng) -> list[dict]:
                 "dequeue": rng.choice(["fifo", "any"]),
                 "backend": "forked" if rng.chance(0.3) else "inproc",
                 "node_seed": rng.randrange(1 << 30),
+                "stat_fault": rng.chance(0.2),
             }
         )
     return out
@@ -169,19 +170,28 @@ def run_one(ctx: Any, seed: int, tier: str, replay: Optional[dict] = None) -> di
         for si, sc in enumerate(scenarios):
             seams.restore_tree(root, initial)
             events: list = []
-            knobs = {"lookahead": sc["lookahead"], "dequeue": sc["dequeue"], "pool_backend": sc["backend"], "journal_reads": False}
+            plan = []
+            byte_skipped = sorted(r_ for r_ in S if mdl[r_] == "byte")
+            if sc.get("stat_fault") and byte_skipped:
+                # a transient failure of the size probe itself (EIO/ESTALE on stat) for an
+                # oversized file: the run may abort or skip, it must not parse/rewrite the file
+                victim = byte_skipped[sc["node_seed"] % len(byte_skipped)]
+                plan = [{"cls": "stat", "path": victim, "nth": 0, "kind": "err", "errno": "EIO"}]
+            knobs = {"lookahead": sc["lookahead"], "dequeue": sc["dequeue"], "pool_backend": sc["backend"], "journal_reads": bool(plan),
+                     "worker_plan": plan}
             n = z.node({"name": "s%d" % si, "root": root, "cwd": cwd, "seed": sc["node_seed"], "knobs": knobs, "tape": sc.get("tape")}, sink=events)
             fix = sc["action"] in ("fix", "format")
             try:
                 if sc["via"] == "api":
-                    out = n.call("lint_paths", paths=["."], fix=fix, apply_fixes=fix, processes=sc["processes"], retain_files=True)
+                    out = n.call("lint_paths", paths=["."], fix=fix, apply_fixes=fix, processes=sc["processes"], retain_files=True, plan=plan)
                 else:
                     if fix:
                         argv = [sc["action"], ".", "-p", str(sc["processes"])]
                     else:
                         argv = ["lint", ".", "--format", "json", "-p", str(sc["processes"])]
-                    out = n.call("cli", argv=argv)
+                    out = n.call("cli", argv=argv, plan=plan)
                 pool = dict(n.pool)
+                fired = dict(n.fired)
             finally:
                 tape = n.close()
             evaluations += 1
@@ -207,7 +217,11 @@ def run_one(ctx: Any, seed: int, tier: str, replay: Optional[dict] = None) -> di
                 except Exception:
                     recs = None
             monfiles = {norm(f["path"]) for f in out.get("mon", {}).get("files", [])}
-            if "exception" in out or "crashed" in out:
+            faulted = bool(plan) and bool(fired.get("err") or any(e and e[0] == "disk" and len(e) > 6 for e in events))
+            if faulted:
+                faults["stat_err"] += 1
+            aborted = "exception" in out or "crashed" in out
+            if aborted and not faulted:
                 vs.append(("exception", "unexpected exception %s" % out.get("exception"), None))
             for rel in sorted(S):
                 why = mdl[rel]
@@ -220,12 +234,14 @@ def run_one(ctx: Any, seed: int, tier: str, replay: Optional[dict] = None) -> di
                 if (recs is not None and rel in recs) or rel in monfiles:
                     vs.append(("reported", "%s is over the %s limit (skipped) but appears in the per-file results as a linted file" % (rel, why), why))
             for rel in sorted(set(mdl) - S):
+                if faulted:
+                    break
                 if recs is not None and rel not in recs:
                     vs.append(("missing", "%s is within the limits but is absent from the results" % rel, None))
-            if "files_skipped" in out and out["files_skipped"] != len(S):
+            if "files_skipped" in out and out["files_skipped"] != len(S) and not faulted:
                 whys = {mdl[r] for r in S}
                 vs.append(("count", "files_skipped=%r but %d files exceed their limit (%s)" % (out["files_skipped"], len(S), sorted(S)), "char" if whys == {"char"} or out["files_skipped"] == sum(1 for r in S if mdl[r] == "byte") else None))
-            if sc["via"] == "cli" and "exit_code" in out and "exception" not in out:
+            if sc["via"] == "cli" and "exit_code" in out and "exception" not in out and not faulted:
                 code = out["exit_code"]
                 if skip_fail(world) and S and code == 0:
                     whys = {mdl[r] for r in S}
